@@ -48,7 +48,7 @@ def main():
         meta["baseline_summary"] = b.stdout.strip().splitlines()[-1] if b.stdout.strip() else ""
         meta["checks"] = {}
         for pid in checks:
-            env = dict(os.environ, VERIF_REPO=wt)
+            env = dict(os.environ, VERIF_REPO=wt, VERIF_OUT="/dev/shm/verif_mutout")
             t0 = time.time()
             q = run([os.path.join(HERE, "check"), pid, "--tier", tier],
                     env=env, cwd=HERE)
